@@ -533,6 +533,9 @@ func (e *Engine) store(st *State, loc string, v AV, in ssa.Instruction) {
 		for k, x := range copies {
 			st.mem[k] = x
 		}
+		if !isLocal(loc) {
+			st.events = append(st.events, Event{Kind: "store", Loc: loc, Val: v, Instr: in, Fn: in.Parent(), Depth: len(e.stack) - 1})
+		}
 		return
 	}
 	st.mem[loc] = v
